@@ -86,18 +86,67 @@ fn main() {
                     errs.extend(cf.errors);
                     other.extend(cf.failures);
                 }
+                if !confirmed {
+                    // The solver's model may interpret uninterpreted/stubbed functions in a way the real functions do not
+                    // follow.  Look for an input on which the real code fails the same obligation (seeded; a hit is a
+                    // genuine, replayed counterexample, a miss leaves the candidate unconfirmed = inconclusive).
+                    let names: Vec<String> = c.model.keys().filter(|k| !k.contains('(')).cloned().collect();
+                    let mut st: u64 = 0xD1B54A32D192ED03 ^ (cfg.seed.wrapping_mul(0x9E3779B97F4A7C15)) | 1;
+                    let mut next = || { st ^= st << 13; st ^= st >> 7; st ^= st << 17; st };
+                    let (lo, hi) = cfg.real_search;
+                    for trial in 0..300u32 {
+                        let mut m = BTreeMap::new();
+                        for n in &names {
+                            let steps = 32.0;
+                            let k = (next() >> 40) % (steps as u64 + 1);
+                            let x = lo + (hi - lo) * (k as f64) / steps; // dyadic grid: exact in rationals
+                            m.insert(n.clone(), if trial % 2 == 0 { format!("{}", x) } else { format!("{}", (x * 4.0).round() / 4.0) });
+                        }
+                        for float in [false, true] {
+                            let ct = run_concrete(cfg.clone(), float, &m, &mut body);
+                            if ct.failures.iter().any(|l| *l == c.label) { confirmed = true; model_used = m.clone(); mode = if float { "f64 (input found by search after an unreproduced solver model)" } else { "exact-rational (input found by search after an unreproduced solver model)" }; break; }
+                        }
+                        if confirmed { break; }
+                    }
+                }
                 }
                 other.truncate(6);
                 let model = model_used.iter().map(|(k, v)| format!("{}:{}", jstr(k), jstr(v))).collect::<Vec<_>>().join(",");
                 viol.push(format!("{{\"label\":{},\"model\":{{{}}},\"confirmed\":{},\"mode\":{},\"exact_model\":{},\"replay_errors\":{},\"replay_failures\":{},\"trace\":{}}}",
                     jstr(&c.label), model, confirmed, jstr(mode), c.exact, jlist(&errs), jlist(&other), jstr(&format!("{:?}", c.trace))));
             }
+            // undecided obligations: before giving up, look for a concrete input on which the real code fails them
+            let mut undecided_left: Vec<String> = Vec::new();
+            {
+                let mut labels: Vec<String> = rep.undecided.clone();
+                labels.sort(); labels.dedup();
+                let mut st: u64 = 0xA0761D6478BD642F ^ (cfg.seed.wrapping_mul(0x9E3779B97F4A7C15)) | 1;
+                let mut next = || { st ^= st << 13; st ^= st >> 7; st ^= st << 17; st };
+                let (lo, hi) = cfg.real_search;
+                let mut found: BTreeMap<String, (BTreeMap<String, String>, &str)> = BTreeMap::new();
+                if !labels.is_empty() && labels.len() <= 12 {
+                    for _trial in 0..200u32 {
+                        let mut m = BTreeMap::new();
+                        for n in &rep.var_names { let k = (next() >> 40) % 33; m.insert(n.clone(), format!("{}", lo + (hi - lo) * (k as f64) / 32.0)); }
+                        for float in [false, true] {
+                            let ct = run_concrete(cfg.clone(), float, &m, &mut body);
+                            for l in &labels { if !found.contains_key(l) && ct.failures.iter().any(|f| f == l) { found.insert(l.clone(), (m.clone(), if float { "f64 (input found by search for an undecided obligation)" } else { "exact-rational (input found by search for an undecided obligation)" })); } }
+                        }
+                        if found.len() == labels.len() { break; }
+                    }
+                }
+                for l in &rep.undecided { if !found.contains_key(l) { undecided_left.push(l.clone()); } }
+                for (l, (m, mode)) in &found {
+                    let model = m.iter().map(|(k, v)| format!("{}:{}", jstr(k), jstr(v))).collect::<Vec<_>>().join(",");
+                    viol.push(format!("{{\"label\":{},\"model\":{{{}}},\"confirmed\":true,\"mode\":{},\"exact_model\":true,\"replay_errors\":[],\"replay_failures\":[],\"trace\":\"\"}}", jstr(l), model, jstr(mode)));
+                }
+            }
             let s = &rep.stats;
             let mut rep_errors = rep.errors.clone();
             if s.controls == 0 || s.controls_ok == 0 { rep_errors.push("vacuity: no path of this instance passed its control obligation".to_string()); }
             println!("{{\"prop\":{},\"instance\":{},\"paths\":{},\"pruned\":{},\"decisions\":{},\"forks\":{},\"obligations\":{},\"syntactic\":{},\"const_eval\":{},\"solver_discharged\":{},\"undecided\":{},\"failed\":{},\"controls\":{},\"controls_ok\":{},\"q_sat\":{},\"q_unsat\":{},\"q_unknown\":{},\"q_memo\":{},\"q_numeric\":{},\"solver_s\":{:.3},\"nontrivial_paths\":{},\"cases\":{},\"truncated\":{},\"wall_s\":{:.3},\"violations\":[{}],\"undecided_labels\":{},\"control_failures\":{},\"errors\":{},\"samples\":{},\"notes\":{}}}",
                 jstr(&prop), jstr(&inst), s.paths, s.paths_pruned, s.decisions, s.forks, s.obligations, s.discharged_syntactic, s.discharged_concrete_const, s.discharged_solver, s.undecided, s.failed, s.controls, s.controls_ok, s.q_sat, s.q_unsat, s.q_unknown, s.q_memo, s.q_numeric, s.solver_s, s.nontrivial_paths, s.cases, s.truncated, t0.elapsed().as_secs_f64(),
-                viol.join(","), jlist(&rep.undecided), jlist(&rep.control_failures), jlist(&rep_errors), jlist(&rep.samples), jlist(&rep.notes));
+                viol.join(","), jlist(&undecided_left), jlist(&rep.control_failures), jlist(&rep_errors), jlist(&rep.samples), jlist(&rep.notes));
         }
         "concrete" => {
             let (prop, inst) = (args[2].clone(), args[3].clone());
